@@ -5,9 +5,9 @@ A Rust `BinDecoder { buffer, remaining }` is a buffer and a read position
 (`index() = buffer.len() - remaining.len()`); `clone(i)` re-positions on the same buffer and
 `split_off(n)` yields a decoder on the *truncated* buffer `buffer[..index+n]`.  A reader is a
 function of the (read-only) buffer and a state `(pos, ticks)`; the state survives an `Err`
-(so the work done before a failure is still counted) and `ticks` counts loop iterations — it
-never influences a result (`Proofs/C01.lean`), it only lets the "time proportional to the input"
-clause be stated about the same definitions that are run against the implementation.
+(so the work done before a failure is still counted) and `ticks` counts loop iterations — no
+reader ever inspects it, it only lets the "time proportional to the input" clause be stated about
+the same definitions that are run against the implementation.
 
 Panic sites of decoder.rs are explicit:
   * `clone`      : `&self.buffer[index_at..]`                (in `Name.readLabels`)
